@@ -354,6 +354,46 @@ def invalid_options(seed):
     return {'template': 'T_gd_ssc', 'seed': seed, 'scenario': 'invalid-options'}, fails
 
 
+def unused_function(k):
+    """a function of each shipped class that is declared and never evaluated adds nothing to the problem: same value as without it.
+    (The three linear-operator classes are left out: with no sample they build a 0 x 0 LMI that the solver interface rejects - an exception, not a wrong value.)"""
+    import inspect
+    import PEPit.functions as F
+    import PEPit.operators as O
+    from PEPit import PEP
+    from PEPit.functions import SmoothStronglyConvexFunction
+    req = {'L': 2., 'mu': .5, 'M': 1., 'beta': .5, 'rho': .5, 'D': 1.}
+    classes = [getattr(m, n) for m in (F, O) for n in sorted(dir(m)) if inspect.isclass(getattr(m, n)) and 'Linear' not in n]
+    cls = classes[k % len(classes)]
+    fails = []
+
+    def model(extra):
+        p = PEP()
+        f = p.declare_function(SmoothStronglyConvexFunction, mu=.1, L=1.)
+        if extra:
+            sig = inspect.signature(cls.__init__)
+            kw = {a: req[a] for a, q in sig.parameters.items() if q.default is inspect._empty and a in req}
+            if 'partition' in sig.parameters:
+                kw['partition'] = p.declare_block_partition(d=2)
+                kw['L'] = [1., 2.]
+            p.declare_function(cls, **kw)
+        xs = f.stationary_point()
+        x0 = p.set_initial_point()
+        p.set_initial_condition((x0 - xs) ** 2 <= 1)
+        x1 = x0 - f.gradient(x0)
+        p.set_performance_metric((x1 - xs) ** 2)
+        return p
+    t0 = solve(model(False))
+    try:
+        t1 = solve(model(True))
+    except Exception as e:       # noqa
+        fails.append(('C05', 'unused_function.exception', 'a declared, never evaluated %s makes the solve stop with %s' % (cls.__name__, type(e).__name__)))
+        t1 = t0
+    if t0 is None or t1 is None or abs(t0 - t1) > 100 * tol(t0):
+        fails.append(('C05', 'unused_function.value', 'a declared, never evaluated %s changes the value from %r to %r' % (cls.__name__, t0, t1)))
+    return {'class': cls.__name__, 'scenario': 'unused-function'}, fails
+
+
 # ------------------------------------------------------------------------------------------------ C17
 def dual_tables(name, seed, resolve=False):
     from PEPit.constraint import Constraint
